@@ -846,6 +846,29 @@ def read_back(path, victim, u, ids):
                 q(("get_raw", oid), lambda oid=oid: st.get_raw(oid))
             q("iter", lambda: sorted(st))
             q("contains", lambda: [i in st for i in ids])
+
+            # store[id] promises more than get_raw(): what it returns hashes
+            # to the name that was asked for -- for the known ids and for
+            # whatever names a damaged index lists
+            def getitem_all():
+                names = set(ids)
+                try:
+                    names |= set(st)
+                except Exception:  # noqa: BLE001
+                    pass
+                bad = []
+                for oid in sorted(names):
+                    try:
+                        o = st[oid]
+                    except Exception:  # noqa: BLE001
+                        continue
+                    raw = o.as_raw_string()
+                    h = hashlib.sha1(H.TYPE_NAMES[o.type_num] +
+                                     b" %d\0" % len(raw) + raw).hexdigest()
+                    if h.encode() != oid or o.id != oid:
+                        bad.append(oid)
+                return ("MISNAMED", tuple(bad)) if bad else "consistent"
+            q("getitem", getitem_all)
         elif victim == "index":
             q("index", lambda: sorted(
                 (k, e.sha, e.mode) for k, e in r.open_index().items()))
@@ -935,7 +958,12 @@ def run_stored(plan, ctx, root):
                           f"second time through the same handle")
                 continue
             want = good.get(key)
-            if isinstance(val, tuple) and val and val[0] == "BAD":
+            if isinstance(val, tuple) and val and val[0] == "MISNAMED":
+                ctx.v(f"misnamed-object-from-getitem/{victim}",
+                      f"{label}: store[id] returned, for {len(val[1])} "
+                      f"name(s) (first {val[1][0]!r}), an object that does "
+                      f"not hash to the name asked for")
+            elif isinstance(val, tuple) and val and val[0] == "BAD":
                 ctx.v(f"abnormal-exception/stored/{victim}/{val[1]}",
                       f"{label} query {key!r:.60}")
             elif isinstance(val, tuple) and val and val[0] == "EXC":
